@@ -54,6 +54,17 @@ pub struct Flat {
     pos: Option<String>,
     #[arg(skip)]
     skipped: u32,
+    #[command(flatten)]
+    limits: Box<Limits>,
+}
+
+/// A flattened group behind a `Box`, with a required member.
+#[derive(Args, Clone, Debug, PartialEq)]
+pub struct Limits {
+    #[arg(long)]
+    lmin: Option<u8>,
+    #[arg(long)]
+    cap: u8,
 }
 
 #[derive(Args, Clone, Debug, PartialEq)]
@@ -90,6 +101,9 @@ pub enum Cmd {
         force: bool,
         #[arg(long)]
         tag: Vec<String>,
+        /// the value of the global `--glob` as seen from this level
+        #[arg(from_global)]
+        glob: Option<String>,
     },
     #[command(alias = "rm")]
     Remove(RemoveArgs),
@@ -285,6 +299,8 @@ impl Mirror for Flat {
             ("dmode".into(), format!("{:?}", self.dmode)),
             ("pos".into(), format!("{:?}", self.pos)),
             ("skipped".into(), format!("{:?}", self.skipped)),
+            ("limits.lmin".into(), format!("{:?}", self.limits.lmin)),
+            ("limits.cap".into(), format!("{:?}", self.limits.cap)),
         ]
     }
     fn defaulted_paths() -> &'static [&'static str] {
@@ -305,6 +321,7 @@ impl Mirror for Flat {
             dmode: one::<Mode>(m, "dmode")?.ok_or("dmode missing")?,
             pos: one::<String>(m, "pos")?,
             skipped: 0,
+            limits: Box::new(Limits { lmin: one::<u8>(m, "lmin")?, cap: one::<u8>(m, "cap")?.ok_or("cap missing")? }),
         })
     }
 }
@@ -334,6 +351,7 @@ fn gen_flat(rng: &mut Rng) -> Flat {
         dmode: *rng.pick(&[Mode::Fast, Mode::Slow, Mode::TwoWords, Mode::Secret]),
         pos: if rng.coin() { Some(pick_str(rng)) } else { None },
         skipped: 0,
+        limits: Box::new(Limits { lmin: if rng.coin() { Some(rng.below(256) as u8) } else { None }, cap: rng.below(256) as u8 }),
     }
 }
 
@@ -362,6 +380,16 @@ fn flat_tokens(v: &Flat, which: &dyn Fn(&str) -> bool) -> (Vec<String>, Vec<(Str
         a.push("--req".into());
         a.push(v.req.clone());
         name("req", format!("{:?}", v.req));
+    }
+    if which("cap") {
+        a.push(format!("--cap={}", v.limits.cap));
+        name("limits.cap", format!("{:?}", v.limits.cap));
+    }
+    if which("lmin") {
+        if let Some(l) = v.limits.lmin {
+            a.push(format!("--lmin={l}"));
+            name("limits.lmin", format!("{:?}", v.limits.lmin));
+        }
     }
     if which("opt") {
         if let Some(o) = &v.opt {
@@ -430,11 +458,12 @@ impl Mirror for Tree {
             ("common.dry".into(), format!("{:?}", self.common.dry)),
         ];
         match &self.cmd {
-            Cmd::Add { name, force, tag } => {
+            Cmd::Add { name, force, tag, glob } => {
                 v.push(("cmd.variant".into(), "add".into()));
                 v.push(("cmd.add.name".into(), format!("{name:?}")));
                 v.push(("cmd.add.force".into(), format!("{force:?}")));
                 v.push(("cmd.add.tag".into(), format!("{tag:?}")));
+                v.push(("cmd.add.glob".into(), format!("{glob:?}")));
             }
             Cmd::Remove(r) => {
                 v.push(("cmd.variant".into(), "remove".into()));
@@ -482,6 +511,7 @@ impl Mirror for Tree {
                 name: one::<String>(sm, "name")?.ok_or("name missing")?,
                 force: one::<bool>(sm, "force")?.unwrap_or(false),
                 tag: many::<String>(sm, "tag")?.unwrap_or_default(),
+                glob: one::<String>(sm, "glob")?,
             },
             "remove" => Cmd::Remove(RemoveArgs { target: one::<String>(sm, "target")?.ok_or("target missing")?, recursive: one::<bool>(sm, "recursive")?.unwrap_or(false) }),
             "list" => Cmd::List,
@@ -504,8 +534,10 @@ impl Mirror for Tree {
 }
 
 fn gen_tree_val(rng: &mut Rng) -> Tree {
+    let glob = if rng.coin() { Some(pick_str(rng)) } else { None };
     let cmd = match rng.below(9) {
-        0 | 1 => Cmd::Add { name: pick_str(rng), force: rng.coin(), tag: (0..rng.usize(3)).map(|_| pick_str(rng)).collect() },
+        // (a from_global field holds what the global holds)
+        0 | 1 => Cmd::Add { name: pick_str(rng), force: rng.coin(), tag: (0..rng.usize(3)).map(|_| pick_str(rng)).collect(), glob: glob.clone() },
         2 => Cmd::Remove(RemoveArgs { target: pick_str(rng), recursive: rng.coin() }),
         3 => Cmd::List,
         4 => Cmd::Service(if rng.coin() { Inner::Start { port: if rng.coin() { Some(rng.below(65536) as u16) } else { None } } } else { Inner::Stop }),
@@ -514,7 +546,7 @@ fn gen_tree_val(rng: &mut Rng) -> Tree {
         // an external subcommand may spell a declared variant (it is then written after `--`)
         _ => Cmd::Ext((*rng.pick(&[&["list", "now"][..], &["list"][..], &["pong", "x"][..], &["add", "--name=z"][..], &["rm"][..]])).iter().map(|s| s.to_string()).collect()),
     };
-    Tree { glob: if rng.coin() { Some(pick_str(rng)) } else { None }, common: Common { level: if rng.coin() { Some(rng.below(256) as u8) } else { None }, dry: rng.coin() }, cmd }
+    Tree { glob, common: Common { level: if rng.coin() { Some(rng.below(256) as u8) } else { None }, dry: rng.coin() }, cmd }
 }
 
 fn tree_tokens(v: &Tree, top: bool, sub: bool) -> (Vec<String>, Vec<(String, String)>) {
@@ -536,8 +568,12 @@ fn tree_tokens(v: &Tree, top: bool, sub: bool) -> (Vec<String>, Vec<(String, Str
     }
     if sub {
         match &v.cmd {
-            Cmd::Add { name, force, tag } => {
+            Cmd::Add { name, force, tag, glob: _ } => {
                 named.push(("cmd.variant".to_string(), "add".into()));
+                if top && v.glob.is_some() {
+                    // the global named at the top is what the from_global field of this level shows
+                    named.push(("cmd.add.glob".to_string(), format!("{:?}", v.glob)));
+                }
                 a.push("add".into());
                 a.push(format!("--name={name}"));
                 named.push(("cmd.add.name".to_string(), format!("{name:?}")));
@@ -958,7 +994,7 @@ fn gen_ops<T: Mirror>(rng: &mut Rng, ty: u8) -> (Vec<String>, Vec<DOp>) {
                 Box::new(|rng: &mut Rng| {
                     let v = gen_flat(rng);
                     let mask = rng.next_u64();
-                    let names = ["flag", "verbose", "req", "opt", "optopt", "many", "optmany", "num", "list", "mode", "dmode", "pos"];
+                    let names = ["flag", "verbose", "req", "opt", "optopt", "many", "optmany", "num", "list", "mode", "dmode", "pos", "cap", "lmin"];
                     flat_tokens(&v, &move |n: &str| names.iter().position(|x| *x == n).map(|i| mask >> i & 1 == 1).unwrap_or(false))
                 }),
                 Box::new(|rng: &mut Rng| {
@@ -1196,6 +1232,16 @@ fn exec_ty<T: Mirror>(name: &str, sc: &DeriveSc, log: &mut Log, out: &mut Outcom
                         out.count_dyn(format!("op.update_err_{:?}", e.kind()));
                         ev!(log, "{i} update {:?} -> Err({:?})", argv, e.kind());
                         let _ = snapshot;
+                        if !*injected_fault && e.kind() == clap::error::ErrorKind::MissingRequiredArgument {
+                            // the update command relaxes every `required`: unless the update switches to another
+                            // variant (which is then built from scratch), a missing required argument cannot be
+                            // the reason to reject it
+                            let switches = named.iter().any(|(n, x)| n.ends_with("variant") && !before.iter().any(|(q, old)| q == n && old == x));
+                            if !switches {
+                                out.violate("partial-update-rejected", "no-variant-switch".to_string(), format!("op {i}: update {:?} (naming {:?}) does not switch to another variant but fails with MissingRequiredArgument: {}", argv, named.iter().map(|x| &x.0).collect::<Vec<_>>(), e.to_string().lines().take(3).collect::<Vec<_>>().join(" / ")));
+                                return;
+                            }
+                        }
                         if !*injected_fault {
                             // an update that names only optional fields of the variant the value already holds
                             // must not be rejected for the variant's required fields
